@@ -44,7 +44,10 @@ def respond {σ ι β} (m : Machine σ ι β) (init : St σ) (initSubs : List Na
 def itemOfJson : Json → Except String Item
   | .str "src" => pure .src
   | .str "stop" => pure .stop
-  | j => do pure (.raise (← j.getObjValAs? String "raise"))
+  | j =>
+    match j.getObjValAs? String "fail" with
+    | .ok e => pure (.fail e)
+    | .error _ => do pure (.raise (← j.getObjValAs? String "raise"))
 
 def handle (op : String) (j : Json) : Except String Json := do
   let evsJ ← getArr j "events"
